@@ -152,7 +152,7 @@ class Mon:
         if ret == 0:
             # item 13: started while a one-shot watcher of s has caught but not been dispatched
             for g in range(len(self.sig)):
-                if g != h and self.sig[g] == s and self.mode[g] == "O" and self.caught[g]:
+                if g != h and self.sig[g] == s and self.caught[g] and (self.mode[g] == "O" or self.ever_one[g]):
                     self.race[s] = True
             self.new_session(h, s, mode)
         else:
@@ -235,8 +235,12 @@ class Mon:
             else:
                 unfired = [h for h in w if not (self.mode[h] == "O" and self.caught[h])]
                 if d == "D" and unfired:
-                    known = self.race.get(s) and any(self.mode[h] == "O" for h in unfired)
-                    self.bad(K_RESET if known else None,
+                    # explained by a known defect: every unfired watcher is either a one-shot started inside
+                    # the SA_RESETHAND window (item 13) or a persistent one carrying a stale one-shot flag (item 3)
+                    expl = [(K_RESET if (self.mode[h] == "O" and self.race.get(s)) else
+                             K_FLAG if (self.mode[h] == "P" and self.ever_one[h]) else None) for h in unfired]
+                    key = None if None in expl else (K_RESET if K_RESET in expl else K_FLAG)
+                    self.bad(key,
                              "disposition of signal %d is the default while handle %d watches it" % (s, unfired[0]))
                 if d == "R":
                     pers = [h for h in w if self.mode[h] == "P"]
@@ -273,7 +277,7 @@ class Mon:
                     self.bad(None, "started handle %d missed a delivered signal %d" % (h, s))
         if r["cbs"] == 0:
             for h in r["n0"]:
-                if self.closing[h] and not self.closed[h] and not self.overflow:
+                if self.closing[h] and not self.closed[h]:
                     self.bad(None, "close_cb of handle %d was not called by a run that had nothing to dispatch" % h)
 
     # ---- walking the token stream ------------------------------------------------
@@ -344,12 +348,13 @@ class Mon:
                     self.on_close_cb(int(t[1:]))
                 else:
                     raise ValueError("unexpected token in run: " + t)
-            self.run_end(args[0])
         sn = self.nxt()
         if sn[0] != "[":
             raise ValueError("expected snapshot, got " + sn)
         d, a = sn[1:-1].split("|")
         self.on_snap(d, a)
+        if k == "R" and t != "x":
+            self.run_end(args[0])
 
 
 def monitor(case, line):
@@ -398,7 +403,7 @@ def main():
                       {"kind": "correspondence", "obligation": name, "stderr": (err or "")[-500:] + (err2 or "")[-500:]},
                       found_input=False)
         chk.finish(rule="line count")
-    ndis, reported, ncb = 0, {}, 0
+    ndis, reported, ncb, dis = 0, {}, 0, []
     for c, x, y in zip(cases, a, b):
         chk.count(name, c + "=>" + x, nontrivial=" c" in x)
         ncb += x.count(" c")
@@ -407,11 +412,7 @@ def main():
         if vf.canon(x) != vf.canon(y):
             chk.cov["disagreements_checked"] += 1
             ndis += 1
-            if ndis <= 3:
-                reason = unknown[0] if unknown else None
-                chk.violation("%s: implementation and model disagree%s" % (name, (": " + reason) if reason else ""),
-                              {"kind": "correspondence", "obligation": name, "case": c, "impl": x, "model": y,
-                               "monitor": [t for _, t in fnd]}, found_input=reason is not None)
+            dis.append((0 if unknown else 1, len(c), c, x, y, unknown, fnd))
             continue
         for k, t in fnd:
             kk = k or t.split(" handle ")[0][:60]
@@ -425,6 +426,13 @@ def main():
             else:
                 chk.violation("%s: trace violates the property: %s%s" % (name, t, (" [key %s]" % k) if k else ""),
                               {"kind": "monitor", "obligation": name, "case": c, "impl": x, "key": k}, found_input=True)
+    # report at most three disagreements: those with a monitor verdict first, shortest case first
+    for _, _, c, x, y, unknown, fnd in sorted(dis, key=lambda d: d[:2])[:3]:
+        reason = unknown[0] if unknown else None
+        chk.violation("%s: implementation and model disagree%s" % (name, (": " + reason) if reason else ""),
+                      {"kind": "correspondence", "obligation": name, "case": c, "impl": x, "model": y,
+                       "monitor": [t for _, t in fnd]}, found_input=reason is not None)
+    chk.cov["disagreements"] = ndis
     chk.corr(name, len(cases))
     chk.cov["signal_callbacks_observed"] = ncb
     chk.cov["monitor_findings"] = reported
